@@ -48,6 +48,8 @@ def main():
         shutil.copy(os.path.join(src, f), os.path.join(dst, f))
     meta['confirmed'] = conf
     json.dump(meta, open(os.path.join(dst, 'meta.json'), 'w'), indent=1)
+    if os.environ.get('SEED_CONFIRM_ONLY'):
+        return
     props = [meta['property']] + extra
     subprocess.run(['python3', 'bin/seedtest.py', dst] + props, cwd=ROOT)
 
